@@ -172,14 +172,20 @@ Proof. vm_compute. repeat split. eexists. split; reflexivity. Qed.
     Missing from the full statement (named): (a) branches with a multiplier that are not simple chains - the three open
     classes nested_in_unit / ring_in_unit, and the two harmless shapes "multiplier 1 on a branch with nested branches or
     rings" and "the one nested shape the code expands correctly" (bounded only: C05_small); (b) stale_recipe; (c) NODE
-    multipliers are written out on flat strings (C05_nodes_partial), not in this AST-level statement: [expand_branches],
-    not [expand].  Texts with braces (base graphs) and without (coarse fragment texts) are both covered. *)
+    multipliers: C05_ast_expand_partial below writes them out too ([expand]), under decidable conditions on the longhand.
+    Texts with braces (base graphs) and without (coarse fragment texts) are both covered. *)
 Theorem C05_branch_ast_partial : forall fo braces a, units_ok fo a = true -> read_cgsmiles fo (print braces a) = denote fo a.
 Proof. exact reader_sim_units_gen. Qed.
 Theorem C05_branch_ast_longhand_partial : forall fo braces a, units_ok fo a = true ->
   wf fo (expand_branches a) = true -> has_branch_mult (expand_branches a) = false ->
   read_cgsmiles fo (print braces a) = read_cgsmiles fo (print braces (expand_branches a)).
 Proof. exact reader_units_longhand. Qed.
+(** ... and with EVERY multiplier written out ([Grammar.expand]: branch and node multipliers), when the written-out
+    strings are strings of the grammar (three decidable conditions on the longhands) *)
+Theorem C05_ast_expand_partial : forall fo braces a, units_ok fo a = true ->
+  forallb mpos_item (expand_branches a) = true -> wf fo (expand a) = true -> has_branch_mult (expand a) = false ->
+  read_cgsmiles fo (print braces a) = read_cgsmiles fo (print braces (expand a)).
+Proof. exact reader_units_expand. Qed.
 (** the flat level behind it: multiplied branches followed by closings, items that close several branches *)
 Theorem C05_branch_flat_closings : forall fo l, g2segs_ok fo l = true ->
   read_cgsmiles fo ("{"%char :: g2segs_str l ++ ["}"%char]) = denote_g2 fo l.
@@ -208,6 +214,8 @@ Example C05_branch_ast_nonvacuous :
   /\ wf fo0 (expand_branches a) = true /\ has_branch_mult (expand_branches a) = false
   /\ print true a = S "{[#X]([#A]([#B])([#C][#D]|2)=|2)[#F]$([#G])([#H])|3}"
   /\ print true (expand_branches a) = S "{[#X]([#A]([#B])([#C][#D]|2)=[#A]([#C][#D]|2))[#F]$([#G])([#H])[#F]([#H])[#F]([#H])}"
+  /\ forallb mpos_item (expand_branches a) = true /\ wf fo0 (expand a) = true /\ has_branch_mult (expand a) = false
+  /\ print true (expand a) = S "{[#X]([#A]([#B])([#C][#D][#D])=[#A]([#C][#D][#D]))[#F]$([#G])([#H])[#F]([#H])[#F]([#H])}"
   /\ (exists g, read_cgsmiles fo0 (print true a) = Ok g /\ length (nodes_data g) = 17%nat)
   /\ (exists g, read_cgsmiles fo0 (print false a) = Ok g /\ length (nodes_data g) = 17%nat).
 Proof. vm_compute. repeat split; eexists; split; reflexivity. Qed.
@@ -226,6 +234,7 @@ Print Assumptions C05_branch_partial_expanded.
 Print Assumptions C05_branch_partial_gen.
 Print Assumptions C05_branch_ast_partial.
 Print Assumptions C05_branch_ast_longhand_partial.
+Print Assumptions C05_ast_expand_partial.
 Print Assumptions C05_branch_flat_closings.
 Print Assumptions C05_branch_partial_gen_expanded.
 Print Assumptions C05_nodes_partial.
